@@ -108,6 +108,10 @@ func buildWorld(c *core.Ctx, base int64, tightWindows bool) *world {
 	lb := &gen.LBundle{Order: map[string][]int{}}
 	lb.Version = c.PickStr("bundle.version", "b1", "b2")
 	n := c.Int("bundle.nex", 1, 5)
+	if c.Chance("bundle.manyExchanges", 1, 15) {
+		// signed subsets (a CBOR map of URLs) around the 23/24-entry head-size step
+		n = c.PickInt("bundle.nexMany", 22, 23, 24, 25, 26)
+	}
 	for i := 0; i < n; i++ {
 		u := gen.DrawURL(c, "bundle.url", i, false, "")
 		r := gen.DrawResp(c, "bundle.resp", i)
